@@ -401,14 +401,15 @@ class Gen:
                     ex = ("alt", (("seq", (ref, ("str", "a"))), ex))
                 rules[i] = (nm, md, ex)
             rules = extra + rules if r.random() < 0.5 else rules + extra
-        if "wildtrivia" in self.f and r.random() < 0.12:
+        if "wildtrivia" in self.f and r.random() < 0.15:
             # trivia rules whose bodies produce pairs or touch the stack: the statements do not define what
             # a parse yields then, but every execution mode must still agree (C01, C02, C06, C07, C16)
             original = rules
             rules = [x for x in rules if x[0] not in ("WHITESPACE", "COMMENT", "ws__")]
             k = r.randrange(4)
             if k == 0:
-                rules += [("COMMENT", "_", ("seq", (("id", "xw__"), ("str", "!")))), ("xw__", r.choice(["$", "!", ""]), ("str", "#"))]
+                body = r.choice([("str", "#"), ("seq", (("str", "#"), ("opt", ("str", "a")))), ("seq", (("str", "#"), ("str", "a")))])
+                rules += [("COMMENT", "_", ("seq", (("id", "xw__"), ("str", "!")))), ("xw__", r.choice(["$", "!", "!", ""]), body)]
             elif k == 1:
                 rules += [("WHITESPACE", "_", ("push", ("str", " ")))]
             elif k == 2:
